@@ -147,7 +147,13 @@ def download_stream_setup(b):
         st.emit('aiter_bytes', size=(args[1] if len(args) > 1 else kwargs.get('chunk_size')))
         yield st, IterSpec(n_chunks, lambda k: SV(BYTES, UF('b2_body_chunk', INT, BYTES)(k)))
 
-    RESP.attrs = {'headers': sym.const(HDRS, 'hdrs'), 'aiter_bytes': MethodModel('aiter_bytes', aiter_bytes)}
+    def whole(name):
+        def m(interp, st, args, kwargs):
+            st.emit('whole_body_read', how=name)
+            yield st, sym.fresh(BYTES, 'whole_body')
+        return MethodModel(name, m)
+
+    RESP.attrs = {'headers': sym.const(HDRS, 'hdrs'), 'aiter_bytes': MethodModel('aiter_bytes', aiter_bytes), 'aread': whole('aread'), 'read': whole('read')}
 
     def stream_req(interp, st, args, kwargs):
         st.emit('stream_request', method=args[0], url=args[1], kwargs=dict(kwargs))
@@ -196,6 +202,10 @@ def download_stream_post(prop):
                 sz = e.data['size']
                 res.oblige(p.pc_at(e), f'{prop}.b2.download_stream.writes_in_pieces_of_chunk_size', z3.BoolVal(False) if sz is None else
                            sym.lift(sz, INT).z == b.st.lookup('chunk_size').z)
+            if p.events('whole_body_read'):
+                # the sink is written in pieces of the chunk size the CALLER chose (a rate-limited command passes limit/(16*N) so that no
+                # single write exceeds a quarter second of the limit): the body is never taken - and written - as a whole
+                res.oblige(p, f'{prop}.b2.download_stream.body_is_never_written_as_a_whole[{sig}]', z3.BoolVal(False))
             if p.events('stream_write'):
                 res.oblige(p, f'{prop}.b2.download_stream.truncate_before_write[{sig}]', z3.BoolVal(
                     'stream_truncate' in kinds and kinds.index('stream_truncate') < kinds.index('stream_write')))
